@@ -528,6 +528,6 @@ def stages(tier):
     from vlib.runner import EnumStage
     return [EnumStage("malformed-files", malformed_files, run_malformed_file,
                       exhaustive={"quick": True, "thorough": True},
-                      budget_s={"quick": 60, "thorough": 60}),
+                      budget_s={"quick": 180, "thorough": 60}),
             HypStage("authorizations", lambda t: cases(t), run_case,
-                     {"quick": 120, "thorough": 4000}, budget_s={"quick": 100, "thorough": 1200})]
+                     {"quick": 120, "thorough": 4000}, budget_s={"quick": 300, "thorough": 1200})]
